@@ -613,7 +613,11 @@ class Unit:
         if k == 'UnaryExprOrTypeTraitExpr' and n.get('name') == 'sizeof':
             pass
         if k == 'SizeOfPackExpr':
-            pass
+            for sc in self.scope_chain(ctx):
+                b = self.template_bindings(sc)
+                if n.get('name') in b and b[n['name']][0] == 'pack':
+                    return len(b[n['name']][1])
+            raise Unsupported('sizeof...(%s): pack not bound in scope' % n.get('name'))
         raise Unsupported('not a supported constant expression: %s' % k)
 
     def const_call(self, n, ctx):
@@ -788,6 +792,17 @@ class Emitter(Unit):
     def ntype(self, n, ctx):
         """resolved type tree of an expression / decl node."""
         ty = n.get('type') or {}
+        if '(lambda at' in (ty.get('qualType') or ''):
+            # a closure returned by a called function was created inside that function
+            self.closure_table()
+            for x in self.walk_no_lambda(n):
+                if x.get('kind') == 'DeclRefExpr' and x['referencedDecl']['kind'] in FUNC_KINDS:
+                    fid2 = x['referencedDecl']['id']
+                    for le in self.ix.lambdas:
+                        if le.get('_owner') == fid2 and '_recid' in le:
+                            m = re.match(r'\(lambda at (.*)\)', le['type']['qualType'])
+                            if m:
+                                self.cur_lam_env[m.group(1)] = le['_recid']
         for key in ('desugaredQualType', 'qualType'):
             s = ty.get(key)
             if not s:
@@ -1730,6 +1745,32 @@ class Emitter(Unit):
             return self.expr(e['inner'][0], fc)
         return str(self.const_eval(e, fc.fid))
 
+    def e_CXXNewExpr(self, e, fc):
+        if e.get('isPlacement') or e.get('isGlobal'):
+            raise Unsupported('placement/global new')
+        ty = T.strip_const(self.ntype(e, fc.fid))
+        el = self.unconst(ty[1])
+        if e.get('isArray'):
+            size = e['inner'][0]
+            if len(e['inner']) > 1 and e['inner'][1].get('kind') not in (None, 'ImplicitValueInitExpr'):
+                k1 = e['inner'][1].get('kind')
+                if k1 == 'CXXConstructExpr' and not (e['inner'][1].get('inner')):
+                    pass
+                else:
+                    raise Unsupported('array new with initialiser')
+            if el[0] == 'n':
+                rec = self.find_record(el[1]) if el[1][0][0] != 'std' else None
+                if rec is None or not self.all_trivial_members(rec):
+                    raise Unsupported('array new of non-trivial type ' + T.show(el))
+            return '((%s)malloc(((unsigned long)%s) * sizeof(%s)))' % (self.ctype(ty), self.expr(size, fc), self.ctype(el))
+        raise Unsupported('scalar new expression')
+
+    def e_CXXDeleteExpr(self, e, fc):
+        return 'free((void*)%s)' % self.expr(e['inner'][0], fc)
+
+    def e_SizeOfPackExpr(self, e, fc):
+        return '%dUL' % self.const_eval(e, fc.fid)
+
     def e_SubstNonTypeTemplateParmExpr(self, e, fc):
         return self.expr(e['inner'][-1], fc)
 
@@ -2044,6 +2085,7 @@ class Emitter(Unit):
         """translate actual arguments; reference parameters receive addresses"""
         out = []
         params = [c for c in (fdecl.get('inner', []) or []) if c.get('kind') == 'ParmVarDecl'] if fdecl is not None else []
+        self.bind_lambdas(args)
         for i, a in enumerate(args):
             if a.get('kind') == 'CXXDefaultArgExpr':
                 if i < len(params) and params[i].get('inner'):
@@ -2070,9 +2112,20 @@ class Emitter(Unit):
                     out.append(self.expr(a, fc))
         return out
 
+    def bind_lambdas(self, args):
+        """closures created in an argument list bind their type for the callee"""
+        self.closure_table()
+        for a in args:
+            for x in self.walk_no_lambda(a):
+                if x.get('kind') == 'LambdaExpr':
+                    m = re.match(r'\(lambda at (.*)\)', x['type']['qualType'])
+                    if m and x['inner'][0]['id'] in self.closure_by_id:
+                        self.cur_lam_env[m.group(1)] = x['inner'][0]['id']
+
     def e_CallExpr(self, e, fc):
         c = self.callee_decl(e)
         args = e['inner'][1:]
+        self.bind_lambdas(args)
         if c.get('kind') != 'DeclRefExpr':
             raise Unsupported('indirect call at %s:%s' % (e.get('_file'), e.get('_line')))
         r = c['referencedDecl']
@@ -2103,6 +2156,7 @@ class Emitter(Unit):
         while me.get('kind') in ('ParenExpr', 'ImplicitCastExpr'):
             me = me['inner'][0]
         args = e['inner'][1:]
+        self.bind_lambdas(args)
         if me.get('kind') != 'MemberExpr':
             raise Unsupported('member call through %s' % me.get('kind'))
         obj = me['inner'][0]
@@ -2137,6 +2191,7 @@ class Emitter(Unit):
         r = c['referencedDecl']
         fd = self.ix.get(r['id'])
         args = e['inner'][1:]
+        self.bind_lambdas(args)
         opname = r.get('name', '')
         if r['kind'] == 'CXXMethodDecl':
             obj = args[0]
@@ -2189,6 +2244,8 @@ class Emitter(Unit):
                 return '%s.d[%d]' % (o, n - 1)
             if name == 'operator=':
                 return '(%s = %s)' % (o, self.expr(args[0], fc))
+        if q == 'std::integral_constant' and (name.startswith('operator ') or name in ('operator()', 'value')):
+            return '%d%s' % (targs[1][1], INT_SUFFIX.get(targs[0][1], '') if targs[0][0] == 'b' else '')
         if q == 'std::optional':
             if name in ('operator bool', 'has_value'):
                 return '%s.has' % o
